@@ -39,6 +39,21 @@ def loop_invariant(qualname, ordinal, **kw):
     return deco
 
 
+def fresh_view(c, prefix='h'):
+    """a havocked bit view: fresh length and content; every index at which it is read is noted, so that quantified
+    invariants about it are instantiated exactly there (array-property style saturation)"""
+    from .extern import BA
+    n = SInt(c.fresh_int(prefix + '.n'))
+    f = c.fresh_fun(prefix)
+    c.assume(n >= 0)
+
+    def bit(i):
+        t = sym._int_t(i)
+        sym.note_index(t)
+        return sym.mk_bool(f(t))
+    return BA(n, bit)
+
+
 class PathDone(Exception):
     """the inductive-step path ends here (its obligations have been recorded)"""
 
@@ -70,6 +85,14 @@ class L:
 
     def has(self, name):
         return name in self.frame.locals
+
+    def forall(self, fn):
+        """(forall i. fn(i)) -- instantiated on demand when the invariant is assumed, skolemised when it is a goal;
+        fn maps a z3 Int term to a bool/SBool"""
+        if self.assuming:
+            sym.forall_hyp(lambda t: sym._b(fn(SInt(t))))
+            return True
+        return sym.forall_goal(lambda t: fn(SInt(t)))
 
 
 def install(interp):
